@@ -565,8 +565,9 @@ class StmtMixin:
                 d = src.meta[1] if (src.meta and src.meta[0] == "lazyiter") else self.iterable(src, nf)
                 j = z3.Int(st.fresh_name("q"))
                 bound.append(j)
-                if d[0] == "dictitems" and d[1] in ("keys", "items") and src.term is not None or \
-                        (d[0] == "dictitems" and d[1] in ("keys", "items") and src.meta and src.meta[0] == "dictview"):
+                is_lazy = bool(src.meta and src.meta[0] == "lazyiter")
+                if d[0] == "dictitems" and d[1] in ("keys", "items") and not is_lazy and \
+                        ((src.ty is not None and src.ty.name in ("dict", "set")) or (src.meta and src.meta[0] == "dictview")):
                     # quantify over the KEYS themselves (membership), not over positions in the iteration order
                     dsv = src if src.term is not None else src.meta[2]
                     kv = z3.Const(st.fresh_name("qk"), Val)
